@@ -1941,3 +1941,42 @@ fn st_recv_publish_v5_recv_max() {
 }
 
 
+
+// =================================================================== C17: CONNACK on an established connection
+fn connack_while_connected(v5: bool) {
+    let mut c = fam_client_connected(v311_or_v5(v5));
+    c.need_store = true;
+    let i: u16 = kani::any();
+    use_ids(&mut c, &[i]);
+    c.pid_puback.insert(i);
+    if v5 {
+        c.store.add(mk_pub5(1, i, true).try_into().unwrap()).unwrap();
+    } else {
+        c.store.add(mk_pub311(1, i, true).try_into().unwrap()).unwrap();
+    }
+    let sp: bool = kani::any();
+    let pre = tm_of(&c);
+    let ev = if v5 {
+        c.process_recv_v5_0_connack(pbh::verif_raw(0x20, &[sp as u8, 0, 0]))
+    } else {
+        c.process_recv_v3_1_1_connack(pbh::verif_raw(0x20, &[sp as u8, 0]))
+    };
+    monitor(pre, &ev, &c);
+    assert!(count(&ev, is_recv) == 0 && count(&ev, |e| is_err(e, MqttError::ProtocolError)) == 1, "[C17] a CONNACK on an established connection is a protocol error and is not delivered");
+    assert!(sth::len(&c.store) == 1 && c.pid_man.is_used_id(i) && c.pid_puback.contains(&i), "[C17] it leaves the session state untouched");
+    assert!(count(&ev, is_close) == 1, "[C19] protocol error requests a close");
+    core::mem::forget(ev);
+    core::mem::forget(c);
+}
+#[kani::proof]
+#[kani::unwind(2)]
+#[kani::stub(core::str::from_utf8, utf8_model)]
+fn st_recv_connack_while_connected_v311() {
+    connack_while_connected(false)
+}
+#[kani::proof]
+#[kani::unwind(2)]
+#[kani::stub(core::str::from_utf8, utf8_model)]
+fn st_recv_connack_while_connected_v5() {
+    connack_while_connected(true)
+}
